@@ -1210,6 +1210,21 @@ def run_s9(seed, tier, log):
             props.append({'id': 'deepcase-' + did, 'prop': 'C09',
                           'detail': 'deeply nested object (%s) on a 2 MiB thread: %s' % (plines[k_][:70] if k_ < len(plines) else did,
                                     ('process died (rc %d) %s' % (p.returncode, (p.stderr or '').strip()[-120:])) if 'DEEP-OK' not in p.stdout else p.stdout.strip()[-100:])})
+    # the same shapes applied to the implementation DIRECTLY (hooks emit_one / valid_opcodes / finish): nobody's candidate list
+    # decides the next opcode, so a change of the guards cannot derail the path; the guards are evaluated on the way
+    nd = 100000 if tier == 'quick' else 1000000
+    for v, ss in shapes.items():
+        for sh_ in ss:
+            sh_ = sh_.replace('*%d' % n, '*%d' % nd)
+            p = subprocess.run([HBIN, 'deeppath', str(v), '2048', sh_], stdout=subprocess.PIPE, stderr=subprocess.PIPE, env=ENV, timeout=900, text=True)
+            ok = p.returncode == 0 and 'DEEP-OK' in p.stdout
+            did = 'deeppath-v%d-%s' % (v, hashlib.md5(sh_.encode()).hexdigest()[:8])
+            runs.append(dict(case=did, path=sh_[:80], stack_kb=2048, ok=ok, rc=p.returncode))
+            if not ok:
+                dspecs[did] = 'deeppath v=%d stack_kb=2048 path=%s' % (v, sh_)
+                props.append({'id': did, 'prop': 'C09',
+                              'detail': 'opcode path %s applied to the implementation on a 2 MiB thread (guards evaluated on the way, then collapse tail and teardown): process died (rc %d) %s' % (
+                                  sh_[:70], p.returncode, (p.stderr or '').strip()[-160:])})
     res = dict(ok=[], diffs=[], props=props, stats={}, ncases=len(runs), okn=sum(r['ok'] for r in runs), nops=len(runs),
                specs=dspecs, samples=runs[:3], runs=runs)
     for pr in props:
@@ -1487,6 +1502,14 @@ def gen_s8_cases(seed, tier):
             add(v, st, memos[i % 3], rows[v] if (v in (1, 4) and i % 4 == 0) or tier != 'quick' else [], srcs[i % 2], ext=i % 2, buf=(i // 2) % 2)
         for i, st in enumerate(deep):
             add(v, st, memos[i % 3], rows[v] if i % 3 == 0 else [], srcs[i % 2], unsafe=int(i % 5 == 0), ext=i % 2, buf=(i // 2) % 2)
+    # float sweep: Rust's `Display for f64` is outside the model (hypothesis fmt_ok of the ..._generated theorems): FLOAT on the
+    # empty stack with the eight entropy bytes = the bit pattern, for every (quick: every fourth) exponent x edge and random
+    # mantissas x both signs; the driver requires FLOAT-lexable text that denotes the drawn value
+    for e in range(0, 2048, 4 if tier == 'quick' else 1):
+        for mant in (0, 1, 1 << 51, (1 << 52) - 1, rng.below(1 << 52), rng.below(1 << 52)):
+            for sign in (0, 1):
+                bits = (sign << 63) | (e << 52) | mant
+                add(e % 2, '-', '-', ['FLOAT'], bits.to_bytes(8, 'little').hex())
     # unsafe mode relaxes guards (STACK_GLOBAL): depth <= 2 again
     for v in (4, 5):
         for st in stacks:
@@ -1534,8 +1557,9 @@ def run_s8(seed, tier, log):
         os.remove(cp)
         os.remove(cp + '.trace')
     json.dump(res, open(res_path, 'w'))
-    log('s8: %d hand-built states, %d agree, %d one-step emissions compared, %d disagreements in %.1fs' % (
-        len(cases), res['okn'], res['nops'], len(res['diffs']), time.time() - t0))
+    res['float_texts_swept'] = sum(1 for c in cases if ' ops=FLOAT ' in c)
+    log('s8: %d hand-built states, %d agree, %d one-step emissions compared, %d disagreements, float sweep %d values (%d where the OCaml formatter differs from Rust but denotes the same f64) in %.1fs' % (
+        len(cases), res['okn'], res['nops'], len(res['diffs']), res['float_texts_swept'], len(res.get('notes', [])), time.time() - t0))
     prune_cache()
     return res
 
